@@ -381,7 +381,13 @@ class APIClient:
         try:
             await coro
         except (Exception, asyncio.CancelledError):  # pylint: disable=broad-except
-            if self._connection is connection:
+            # A connect phase that fails closes its connection. A call that
+            # was refused because a phase is still in progress (or a session
+            # is up) must not detach the connection that is in use.
+            if self._connection is connection and (
+                connection is None
+                or connection.connection_state is CONNECTION_STATE_CLOSED
+            ):
                 self._connection = None
             raise
 
